@@ -27,6 +27,12 @@ func shrinkPlan(ck *Check, plan *Plan, prop string, viol *Violation) (*Plan, *Vi
 		}
 		return false
 	}
+	plan.normalize()
+	best = plan.clone()
+	if !try(best.clone()) {
+		// the serialised form does not reproduce: report the plan as found rather than a "minimised" one that fails to replay
+		return plan, viol, runs
+	}
 	edit := func(f func(p *Plan) bool) bool {
 		cand := best.clone()
 		if !f(cand) {
